@@ -242,6 +242,12 @@ def mul(a, b) -> T:
             if y.op == "neg":
                 return mul(const(-cval(x)), y.args[0])
             return T("*", (x, y), R)  # constant first
+    for x, y in ((a, b), (b, a)):
+        # indicator(c) * y  ->  ite(c, y, 0)   (keeps products of 0/1 indicators Boolean for the solver)
+        if x.op == "ite" and x.args[1] is ONE and x.args[2] is ZERO:
+            if y.op == "ite" and y.args[1] is ONE and y.args[2] is ZERO:
+                return ite(and_(x.args[0], y.args[0]), ONE, ZERO)
+            return ite(x.args[0], y, ZERO)
     return T("*", (a, b), R)
 
 
